@@ -191,6 +191,23 @@ CHECKS = {
              "concept is established by compiling and replaying on three pointer types, not for all types; pointer laws are "
              "premises (fancy_ptr/checked_ptr satisfy them by construction); one open known finding "
              "(reinterpret_array_cast<T2>(count) puns the pointer object); Coq 8.16.1 kernel, Print Assumptions in the evidence"),
+    "C03": dict(
+        text="Theorem C03_representation_independence (Coq, induction over programs, unbounded): every finite program over twelve "
+             "reference-level primitives (read, take, write a value; copy, move, swap between positions; < and == between positions "
+             "and against values; arbitrary continuations) gives the same results and the same final values on a view range as on a "
+             "list of independent values, and changes no cell outside the range; C03_begin_end / C03_elements instantiate it for "
+             "begin()/end() (proxy sub-views) and elements(); C03_reachable discharges the disjointness/injectivity hypothesis for "
+             "every view obtained from a row-major array of any rank by index, sliced, strided, dropped, taked, rotated, unrotated, "
+             "transposed, reversed; C03_two_ranges; C03_algorithms_in_range (11 of the property's algorithms written as Gallina "
+             "programs); C03_moved_from. Rows with a zero extent under a non-zero one are excluded and refuted (C03_full_refuted; "
+             "known finding: value_type collapses). Tie: primitive scripts vs the extracted model on the whole guarded buffer; all 20 "
+             "algorithms on begin()/end() and elements() against std::vector<value_type> twins (contents, returned position, frame), "
+             "the Gallina algorithms also against the model; vm_compute re-evaluation of a sub-sample.",
+        design_ref="5/C03", technique="Coq proof (simulation of a free-monad program over proxy-iterator primitives, by induction on "
+                                      "the program, from C02/C05/C07) + extracted-model vs library differential on primitive scripts "
+                                      "+ algorithm-vs-std::vector twin oracle",
+        note="partial in the sense of DESIGN 8: that libstdc++'s 20 algorithms ARE programs over these primitives is trusted and "
+             "sampled (twin oracle), not proved; Coq 8.16.1 kernel, Print Assumptions in the evidence; g++ 12/libstdc++"),
 }
 
 NOT_YET = {
